@@ -20,6 +20,7 @@ func run(c *Ctx) {
 		fl = append(fl, ml.GenFlvScript(c.Rng))
 	}
 	ml.RunFlvScripts(c, "c01", fl)
+	wireRuns(c)
 	for _, hevc := range []bool{false, true} {
 		ml.RecordOutcome(c, ml.ScJoinRace(false, hevc), "c01")
 		ml.RecordOutcome(c, ml.ScJoinRace(true, hevc), "c01")
